@@ -1,0 +1,18 @@
+//go:build verif
+
+package gateway
+
+// Verification hooks for message framing (property C19 of the /verif
+// framework). This file only re-exports unexported methods; it adds no
+// behaviour and is compiled only with `-tags verif`.
+
+import "go.sia.tech/core/types"
+
+// VerifMaxRequestLen exposes maxRequestLen.
+func VerifMaxRequestLen(o Object) int { return o.maxRequestLen() }
+
+// VerifMaxResponseLen exposes maxResponseLen.
+func VerifMaxResponseLen(o Object) int { return o.maxResponseLen() }
+
+// VerifIDForObject exposes idForObject.
+func VerifIDForObject(o Object) types.Specifier { return idForObject(o) }
